@@ -39,6 +39,7 @@ LOCK = os.environ.get("VERIF_LOCK", os.path.join(CACHE, "lock"))
 JOBS = int(os.environ.get("VERIF_JOBS", "8"))
 
 TIER_CAPS = {
+    "experimental": (int(os.environ.get("VERIF_THOROUGH_TIMEOUT", "2400")), 28 * 1024 * 1024),
     # (per-harness time-out seconds, address-space cap in KiB for every child process)
     "quick": (int(os.environ.get("VERIF_QUICK_TIMEOUT", "420")), 14 * 1024 * 1024),
     "thorough": (int(os.environ.get("VERIF_THOROUGH_TIMEOUT", "2400")), 28 * 1024 * 1024),
@@ -412,7 +413,10 @@ def shquote(s):
     return "'" + s.replace("'", "'\\''") + "'"
 
 
-def resolve_unwindset(h, build, workdir):
+LOOP_TABLES = {}
+
+
+def resolve_unwindset(h, build, workdir, bumps=None):
     """`// @unwindset <substring of pretty function name>:<N> ...` -> CBMC loop ids. Kani only offers one global
     unwinding bound per harness; nested library loops (memchr inside split inside the parser's own loop) then
     multiply. The ids are read from the harness's goto binary (goto-instrument --show-loops), never hard-coded."""
@@ -476,7 +480,38 @@ def resolve_unwindset(h, build, workdir):
         if not hit:
             raise Inconclusive(f"{h.name}: @unwindset pattern `{pat}` matches no loop of the current code")
         chosen += [f"{lid}:{n}" for lid in hit]
-    return ",".join(chosen)
+    LOOP_TABLES[h.full] = ids
+    merged = {}
+    for item in chosen:
+        lid, _, n = item.rpartition(":")
+        merged[lid] = max(int(n), merged.get(lid, 0))
+    for lid, n in (bumps or {}).items():
+        merged[lid] = max(n, merged.get(lid, 0))
+    return ",".join(f"{k}:{v}" for k, v in merged.items())
+
+
+def unwind_failures(h, out_json):
+    """loop ids whose unwinding assertion failed in the last run of harness h (empty if none / no result)"""
+    try:
+        d = json.load(open(out_json))
+    except Exception:
+        return []
+    ids = LOOP_TABLES.get(h.full, [])
+    out = []
+    for r in d.get("verification_results", {}).get("results", []):
+        if r.get("harness_id") != h.full:
+            continue
+        for c in r.get("checks") or []:
+            if c.get("category") == "unwind" and c.get("status") == "Failure":
+                m = re.search(r"loop (\d+)", c.get("description", ""))
+                if not m:
+                    continue
+                fn, n = c.get("function", ""), m.group(1)
+                hit = [lid for lid, desc in ids if lid.endswith("." + n) and desc.rstrip().endswith("function " + fn)]
+                if not hit and "::" not in fn:
+                    hit = [f"{fn}.{n}"]
+                out += hit
+    return out
 
 
 def kani_verify(harnesses, tier, workdir, build=None, solver=None):
@@ -519,7 +554,10 @@ def kani_verify(harnesses, tier, workdir, build=None, solver=None):
     out_json = os.path.join(workdir, f"kani{tag}.json")
     if os.path.exists(out_json):
         os.unlink(out_json)
-    cmd = ["cargo", "kani"] + build.lib_flag + ["-Z", "stubbing", "-Z", "unstable-options",
+    # Kani refuses --concrete-playback together with --jobs > 1: single-harness invocations ask for the concrete
+    # tests up front (no second run needed on a failure), parallel groups fall back to a second run
+    cp = []  # (asking for concrete tests up front made heavy single-harness runs time out; they are generated on demand)
+    cmd = ["cargo", "kani"] + build.lib_flag + ["-Z", "stubbing", "-Z", "unstable-options"] + cp + [
            "--target-dir", build.kani_target, "--exact", "--output-format", "terse",
            "--harness-timeout", f"{per_to}s", "--export-json", out_json,
            "-j", str(max(1, min(JOBS, len(harnesses))))]
@@ -527,15 +565,32 @@ def kani_verify(harnesses, tier, workdir, build=None, solver=None):
         cmd += ["--harness", h.full]
     if solver:
         cmd += ["--solver", solver]
-    if special:
-        extra = ["--cbmc-args"]
-        st = special[0].meta.get("unwindstart")
-        if st:
-            extra += ["--unwind", st[0].strip()]
-        cmd += extra + ["--unwindset", resolve_unwindset(special[0], build, workdir)]
     logf = os.path.join(workdir, f"kani{tag}.log")
     waves = (len(harnesses) + JOBS - 1) // JOBS
-    rc = run_capped(cmd, build.cwd, mem, 900 + per_to * waves + 120, logf)
+    if not special:
+        rc = run_capped(cmd, build.cwd, mem, 900 + per_to * waves + 120, logf)
+        return rc, out_json, logf
+    # per-loop bounds: start from the annotated ones; if the CURRENT code needs more iterations somewhere (e.g. an edit
+    # added a loop), double exactly the loops whose unwinding assertion failed and run again (at most 5 rounds), so
+    # that a changed tree is explored rather than dismissed as "bound too small"
+    h = special[0]
+    bumps = {}
+    rc = 1
+    for rnd in range(6):
+        us = resolve_unwindset(h, build, workdir, bumps)
+        if os.path.exists(out_json):
+            os.unlink(out_json)
+        rc = run_capped(cmd + ["--cbmc-args", "--unwindset", us], build.cwd, mem, 900 + per_to + 120, logf)
+        failing = unwind_failures(h, out_json)
+        if not failing:
+            break
+        cur = dict(x.rsplit(":", 1) for x in us.split(",") if x)
+        attr = re.search(r"kani::unwind\((\d+)\)", " ".join(h.attrs))
+        base = int(attr.group(1)) if attr else 2
+        for lid in failing:
+            bumps[lid] = 2 * int(cur.get(lid, base))
+        log(f"      {h.name}: unwinding bound too small for {len(set(failing))} loop(s) of the current code; deepening (round {rnd + 1})")
+    h.meta["deepened"] = [f"{k}:{v}" for k, v in bumps.items()]
     return rc, out_json, logf
 
 
@@ -623,26 +678,40 @@ def check_identity(c):
 # replay
 # --------------------------------------------------------------------------
 
-def gen_playback(h, tier, workdir):
-    build = Build(h.mode)
-    per_to, mem = TIER_CAPS[tier]
-    if h.timeout:
-        per_to = max(per_to, h.timeout)
-    cmd = ["cargo", "kani"] + build.lib_flag + ["-Z", "stubbing", "-Z", "unstable-options", "-Z", "concrete-playback",
-           "--concrete-playback=print", "--target-dir", build.kani_target, "--exact", "--harness", h.full,
-           "--harness-timeout", f"{per_to}s"]
-    logf = os.path.join(workdir, f"playback-gen-{h.name}.log")
-    run_capped(cmd, build.cwd, mem, 900 + per_to + 120, logf)
-    text = open(logf, errors="replace").read()
+def parse_playback_tests(text, harness_full):
     tests = []
     for m in re.finditer(r"Concrete playback unit test for `([^`]+)`:\s*```\n(.*?)```", text, re.S):
+        if m.group(1) != harness_full:
+            continue
         body = m.group(2)
+        body = "\n".join(re.sub(r"^Thread \d+: ", "", l) for l in body.splitlines()) + "\n"
         km = re.search(r"/// Check for `(\w+)`: \"(.*)\"\s*$", body, re.M)
         kind = km.group(1) if km else "?"
         desc = km.group(2).strip('"') if km else "?"
         fm = re.search(r"fn (kani_concrete_playback_\w+)\(", body)
         tests.append({"kind": kind, "desc": desc, "name": fm.group(1) if fm else None, "code": body})
     return tests
+
+
+def gen_playback(h, tier, workdir, main_log_text=""):
+    # the main run already asks Kani for concrete tests; a second run is only the fall-back
+    tests = parse_playback_tests(main_log_text, h.full)
+    if any(t["name"] for t in tests):
+        return tests
+    build = Build(h.mode)
+    per_to, mem = TIER_CAPS[tier]
+    if h.timeout:
+        per_to = max(per_to, h.timeout)
+    cmd = ["cargo", "kani"] + build.lib_flag + ["-Z", "stubbing", "-Z", "unstable-options", "-Z", "concrete-playback",
+           "--concrete-playback=print", "--target-dir", build.kani_target, "--exact", "--harness", h.full,
+           "--harness-timeout", f"{2 * per_to}s"]
+    if h.meta.get("unwindset") or h.meta.get("unwindloop"):
+        bumps = dict((x.rsplit(":", 1)[0], int(x.rsplit(":", 1)[1])) for x in h.meta.get("deepened", []))
+        cmd += ["--cbmc-args", "--unwindset", resolve_unwindset(h, build, workdir, bumps)]
+    logf = os.path.join(workdir, f"playback-gen-{h.name}.log")
+    run_capped(cmd, build.cwd, mem, 900 + 2 * per_to + 120, logf)
+    text = open(logf, errors="replace").read()
+    return parse_playback_tests(text, h.full)
 
 
 def insert_tests(h, tests):
@@ -730,7 +799,7 @@ def main():
         return setup()
     ap = argparse.ArgumentParser()
     ap.add_argument("property")
-    ap.add_argument("--tier", default=os.environ.get("VERIF_TIER", "quick"), choices=["quick", "thorough"])
+    ap.add_argument("--tier", default=os.environ.get("VERIF_TIER", "quick"), choices=["quick", "thorough", "experimental"])
     ap.add_argument("--only", default=None, help="substring filter on harness names (debugging; evidence not written)")
     ap.add_argument("--replay", default=None, help="re-run a saved replay test file natively against /repo's tree")
     ap.add_argument("--keep", action="store_true")
@@ -766,13 +835,14 @@ def main():
     try:
         make_overlay(files)
         log(f"[{pid}] tier={tier} harnesses={len(hs)} overlay={OVERLAY}")
-        res_by, stats_by, logtext = {}, {}, ""
+        res_by, stats_by, logtext, all_logs = {}, {}, "", ""
         for mode in sorted({h.mode for h in hs}):
             build = Build(mode)
             build.prepare()
             group = [h for h in hs if h.mode == mode]
             rc, out_json, logf = kani_verify(group, tier, workdir, build)
             logtext = open(logf, errors="replace").read()
+            all_logs += logtext
             data = None
             if os.path.exists(out_json):
                 try:
@@ -834,10 +904,10 @@ def main():
                 rp["replay"] = {"mode": "not-replayable", "why": h.replay}
                 reproduced = True
                 # still ask CBMC for the concrete values of every kani::any() on the failing trace
-                vals = [t for t in gen_playback(h, tier, workdir) if t["kind"] != "cover"]
+                vals = [t for t in gen_playback(h, tier, workdir, all_logs) if t["kind"] != "cover"]
                 rpath = save_replay(pid, h, [], r, note=h.replay, trace=vals)
             else:
-                tests = gen_playback(h, tier, workdir)
+                tests = gen_playback(h, tier, workdir, all_logs)
                 fail_tests = [t for t in tests if t["kind"] != "cover" and t["name"]]
                 if not fail_tests:
                     # Kani sometimes emits concrete tests only for the cover witnesses; they are concrete executions of
